@@ -40,6 +40,8 @@ FINDINGS = {}
 EVENTS = ['e0', 'e1', 'e2', 'e3', 'e4']
 METHODS = ['m0', 'm1', 'm2', 'm3', 'm4', 'm5']
 UNKNOWN = ['zz', 'on_nothing']
+KWNAMES = ['k0', 'k1', 'k2', 'listener', 'handler', 'method', 'args', 'kwargs', 'name', 'event', 'callback', 'cls',
+           'dispatcher', 'handler_ref', 'method_ref', 'value', 'dt']
 ARG_VALUES = [None, 0, '', [], {}, False]
 
 
@@ -455,7 +457,8 @@ class Run:
                 self.flags['remove_stranger'] += 1
             elif kind == 'dispatch':
                 args = tuple(make_value(op[3] + i) for i in range(op[2]))
-                kwargs = {('k%d' % i): make_value(op[4] + i) for i in range(op[3] % 3)}
+                # keyword names: any identifier the API does not use for its own parameters (self, event_name)
+                kwargs = {KWNAMES[(op[4] + 5 * i) % len(KWNAMES)]: make_value(op[4] + i) for i in range(op[3] % 3)}
                 self.do_dispatch(self.pick_event(op[1]), args, kwargs)
             elif kind == 'cycle':
                 self.op_cycle(op[1], op[2])
